@@ -420,6 +420,7 @@ class ManagerBench:
     cannot produce (1-cycle inter-packet delays as at high speed, ACK right after the packet, transmitter stalls).
     Script ops: ("feed", 1, items[, delay]) ("rate", 1, p) ("flush", 1, level) ("idle", n)
                 ("in", hs, rfr_delay, ack_delay)   hs in ack|lost|bad;  ("other_tok",)  token for another endpoint
+                ("other_txn",)  complete IN transaction of another endpoint incl. the host's ACK
     Emits the same event format as `Bench` (endpoint number 1)."""
 
     def __init__(self, m):
@@ -577,6 +578,15 @@ class ManagerBench:
                     if nbeats() == nb and not st["q"]:
                         break
                 log(st["t"], 0, {"e": "end", "o": "bus"})
+            elif k == "other_txn":    # a whole IN transaction of another endpoint, ACKed by the host (active = 0)
+                log(st["t"], 0, {"e": "tok", "pid": "IN", "ep": 2, "o": "in2"})
+                await cycle(new_token=1, active=0)
+                await cycle(active=0)
+                await cycle(rfr=1, active=0)
+                for _ in range(4):
+                    await cycle(active=0)
+                await cycle(ack=1, active=0)
+                log(st["t"] - 1, 0, {"e": "hs", "o": "in2"})
             elif k == "other_tok":
                 log(st["t"], 0, {"e": "tok", "pid": "IN", "ep": 2, "o": "in2"})
                 await cycle(new_token=1, active=0)
